@@ -101,9 +101,10 @@ def table_rules(chk, F, A, an, tag):
                 continue
             exp_w = pt.LMOTS_TYPE_W.get(code)
             got = None
+            ev0 = pt.eval_rows(F, an, f, order, rows, {})
             for disc, r in rows.items():
-                if r["variant"] == variant and r["call"]:
-                    iv = an._try_const_operand(f, r["call"][1]["args"][1])
+                if r["variant"] == variant and r["call"] and ev0.get(disc):
+                    iv = ev0[disc].get("winternitz")
                     got = iv[0] if iv and iv[0] == iv[1] else None
             chk.ob("T1.decoder-agrees", "%s:%s%s" % (kind, code, tag), exp_w is not None and got == exp_w,
                    "type code %s decodes (%s) to %s with w=%s; RFC says w=%s" % (code, df.path, variant, got, exp_w), where=df.loc())
